@@ -215,7 +215,14 @@ struct RunResult {
 }
 
 fn run_cli(cli: &Path, root: &Path, o: &Opts, strace: bool) -> Result<RunResult, String> {
-	let _ = std::fs::remove_dir_all(root);
+	run_cli_in(cli, root, o, strace, true)
+}
+
+/// `fresh = false`: keep what an earlier run left in `root` (same names are then overwritten)
+fn run_cli_in(cli: &Path, root: &Path, o: &Opts, strace: bool, fresh: bool) -> Result<RunResult, String> {
+	if fresh {
+		let _ = std::fs::remove_dir_all(root);
+	}
 	std::fs::create_dir_all(root).map_err(|e| e.to_string())?;
 	let out_dir = match o.out_kind {
 		0 => {
@@ -494,7 +501,17 @@ pub fn run(ctx: &Ctx, cli: &Path) {
 		let text = format!("args={:?} invalid_because={:?}", o.args(Path::new("<out>")), reasons);
 		let root = tmp_root.join(format!("c{}", i));
 		let strace = have_strace && i < n_strace;
-		let r = match run_cli(cli, &root, &o, strace) {
+		// every fifth valid case: first a run with the LARGEST keys into the same directory and names, then the real one
+		// (a writer that does not truncate leaves the tail of the longer file behind)
+		let rerun = reasons.is_empty() && directed.is_none() && i % 5 == 0;
+		if rerun {
+			let mut first = o.clone();
+			first.alg = Some(if crate::BACKEND == "aws" { "--rsa" } else { "--ecdsa-p384" });
+			first.sans = (0..12).map(|k| format!("a-rather-long-host-name-number-{}.example.com", k)).collect();
+			let _ = run_cli_in(cli, &root, &first, false, true);
+			ctx.count("eval:second_runs_into_same_directory");
+		}
+		let r = match if rerun { run_cli_in(cli, &root, &o, strace, false) } else { run_cli(cli, &root, &o, strace) } {
 			Ok(r) => r,
 			Err(e) => {
 				ctx.note(format!("harness: {}", e));
